@@ -117,6 +117,9 @@ def responses_tie(ctx):
 
 # concat: the path is the concatenation, the query parameters are those of the right operand only (Uri::append)
 CONCAT = [
+    ("let base = /;\nlet items = concat base (/items);\nlet item = concat items (/{ 'id int });\nlet health = concat (/v1) (/health);\n"
+     "res items on get -> <>;\nres item on get -> <>;\nres health on get -> <>;\nres (concat (/a/) (/b)) on get -> <>;\nres (concat base base) on put -> <>;\n",
+     {"/items": [], "/items/{id}": [("path", "id")], "/v1/health": [], "/a/b": [], "/": []}),
     ("let collection = /items?{ 'page int, 'sort! str };\nlet item = concat collection /{ 'id str };\nres item on get -> <{ 'name str }>;\nres collection on get -> <>;\n"
      "res (concat collection /search?{ 'q! str }) on get -> <>;\n",
      {"/items/{id}": [("path", "id")], "/items": [("query", "page"), ("query", "sort")], "/items/search": [("query", "q")]}),
@@ -169,6 +172,8 @@ def check(ctx):
     ps = progs.gen_programs(ctx, n)
     # corpus: same status with several media types / headers / descriptions, parameter uses with annotations, nested applications
     extra = [
+        "let g x = { 'v x };\nlet f y = g [y];\nres /a on get -> <f { 'p str }>;\nres /b on get -> <f { 'q int }>;\n",
+        "let g x = { 'v x };\nlet f y = { 'w (g { 'in y }), 'z y };\nres /a on get -> <f str> :: <status=404, (f int)>;\n",
         'let item = { \'a num };\nres /m on get -> <status=200, media="application/json", item> `description: "j"` :: <status=200, media="text/plain", headers={ \'h str }, str> :: <status=404, media="text/plain", str>;\n',
         'let wrap x = { \'data! x `title: "Envelope payload"`, \'n num };\n# title: "Customer name"\nlet name = str;\nres /w on get -> <wrap name>;\n',
         'let f x y = { \'first x, \'second y };\nlet g y x = f y x;\nres /g on get -> <g num str> :: <status=404, (g [num] { \'k bool })>;\n',
